@@ -74,19 +74,32 @@ def build_param(p):
     return p
 
 
+# A second family of definitions under the *same* names (definitions are stored per circuit, so two circuits
+# may legally use one name for different matrices).  A circuit spec picks the family with "cv": 1.
+CUSTOMS_ALT = {
+    "MyRot": {"matrix": [["cos(t)", "-I*sin(t)"], ["-I*sin(t)", "cos(t)"]], "params": ["t"]},
+    "MyPhase2": {"matrix": [["1", "0", "0", "0"], ["0", "exp(I*v)", "0", "0"], ["0", "0", "exp(I*u)", "0"],
+                            ["0", "0", "0", "exp(I*(u-v))"]], "params": ["v", "u"]},
+    "MyFixed": {"matrix": [["0", "1"], ["1", "0"]], "params": []},
+    "MyPerm3": {"matrix": [[("1" if (c == (r + 3) % 8) else "0") for c in range(8)] for r in range(8)], "params": []},
+    "MyNonUnitary": {"matrix": [["1", "0"], ["1/3", "1"]], "params": []},
+}
+
 _custom_cache = {}
+_variant = [0]
 
 
 def custom_def(name):
     from orquestra.quantum import circuits as C
 
-    if name not in _custom_cache:
-        d = CUSTOMS[name]
+    key = (name, _variant[0])
+    if key not in _custom_cache:
+        d = (CUSTOMS_ALT if _variant[0] else CUSTOMS)[name]
         syms = [sympy.Symbol(p) for p in d["params"]]
         loc = {p: s for p, s in zip(d["params"], syms)}
         mat = sympy.Matrix([[sympy.sympify(e, locals=loc) for e in row] for row in d["matrix"]])
-        _custom_cache[name] = C.CustomGateDefinition(name, mat, tuple(syms))
-    return _custom_cache[name]
+        _custom_cache[key] = C.CustomGateDefinition(name, mat, tuple(syms))
+    return _custom_cache[key]
 
 
 def build_gate(g):
@@ -137,7 +150,11 @@ def build_op(o):
 def build_circuit(c):
     from orquestra.quantum import circuits as C
 
-    return C.Circuit([build_op(o) for o in c["ops"]], c.get("n"))
+    _variant[0] = int(c.get("cv", 0))
+    try:
+        return C.Circuit([build_op(o) for o in c["ops"]], c.get("n"))
+    finally:
+        _variant[0] = 0
 
 
 def build_pauli(spec):
